@@ -92,6 +92,7 @@ def run(tier):
     files = rng2.sample(pool, min(len(pool), 150 if tier == "quick" else 1500))
     files += ["<html>\n<body><?php echo 1; ?></body>\n", "<b>x</b>", "<?php echo 1;\n", "<p><?= $a ?></p>\n<?php f();", "<?php $a = ; $b = 1;\n", "plain",
               "<?php\n$x = 1\n?>\ntail\n", "<?php function f( { }\n$x = 1;"] * 3
+    files += cli.big_sources(pool)         # files of 70 KiB .. 300 KiB among the small ones
     rng2.shuffle(files)
     for sig, rep in cli.check_cli(check, wp, files, "7.4", [["-pb"]], procs_list=(1, 16) if tier == "quick" else (1, 2, 4, 16)):
         check.violation(sig, rep)
